@@ -73,6 +73,31 @@ def mutants(tokens, rng, k=6):
     return out[:k]
 
 
+def analysis_failure_site(block, params):
+    """Where the front end raises on this block: 'function: ExceptionType' of the innermost frame
+    (ir_block.evm2rbr_compiler prints the traceback and re-raises a generic exception)."""
+    import traceback
+    import gasol_asm
+    import sfs_generator.ir_block as ib
+    holder = {}
+    orig = ib.traceback.print_exc
+
+    def cap(*a, **k):
+        holder["tb"] = traceback.format_exc()
+    ib.traceback.print_exc = cap
+    try:
+        gasol_asm.compute_original_sfs_with_simplifications(block, params)
+        return "analysis-does-not-raise"
+    except Exception:
+        tb = holder.get("tb") or traceback.format_exc()
+        frames = [l.strip() for l in tb.splitlines() if l.strip().startswith("File")]
+        fn = frames[-1].rsplit(" in ", 1)[-1] if frames else "?"
+        exc = tb.strip().splitlines()[-1].split(":")[0]
+        return "%s: %s" % (fn, exc)
+    finally:
+        ib.traceback.print_exc = orig
+
+
 def _cmp_one(params, job):
     """Worker: compare_asm_block_asm_format(B, B'). job = (textB, textB')."""
     import gasol_asm
@@ -87,6 +112,8 @@ def _cmp_one(params, job):
         res = {"eq": bool(eq), "reason": str(reason)[:200], "raised": None}
     except Exception as e:
         res = {"eq": None, "reason": "", "raised": "%s: %s" % (type(e).__name__, str(e)[:200])}
+    if a == b and not res.get("eq"):
+        res["site"] = analysis_failure_site(ba, params)
     res["a"] = evmconv.items_of_block(ba)
     res["b"] = evmconv.items_of_block(bb)
     res["a_plain"], res["b_plain"] = ba.to_plain(), bb.to_plain()
@@ -192,7 +219,7 @@ def check(run):
             dist["%s:%s" % (k0, "equal" if val["eq"] else "different")] += 1
             if kind == "reflexive":
                 if not val["eq"]:
-                    run.report({"kind": "reflexive-not-equal", "reason": val["reason"][:40]},
+                    run.report({"kind": "reflexive-not-equal", "site": val.get("site", "?")},
                                "checker(B,B) answered different (%s) on %s" % (val["reason"], a),
                                {"block": a, "options": opts, "reason": val["reason"]}, True)
                 continue
